@@ -3,19 +3,18 @@ package harness
 import (
 	"github.com/LemoFoundationLtd/lemochain-core/chain/params"
 	"github.com/LemoFoundationLtd/lemochain-core/chain/txpool"
+	"github.com/LemoFoundationLtd/lemochain-core/common"
 	"github.com/LemoFoundationLtd/lemochain-core/store"
-	"github.com/LemoFoundationLtd/lemochain-core/common/log"
 )
 
-func setupLogging() {
-	log.Setup(log.LevelCrit, false, false)
-}
 
 // resetGlobals restores process-global knobs at the start of every run.
 func resetGlobals() {
+	resetLogCapture()
 	txpool.VerifSetDefaultPoolCap(128)
 	params.TermDuration = 1000000
 	params.InterimDuration = 1000
 	params.RewardCheckHeight = 100000
+	params.MinCandidateDeposit = common.Lemo2Mo("5000000")
 	store.VerifSetMaxCandidateCount(20)
 }
